@@ -94,15 +94,16 @@ Definition deferred_slots : list str := [
 Definition K (i : nat) : ev := EAttr (nth i known_names []) false [].   (* a parsed, named attribute *)
 Definition U (name : str) (body : bytes) : ev := EAttr name true body.  (* an attribute delivered as raw bytes *)
 Definition Fl := EFlags.
-Definition Df (i : nat) : ev := EDeferred (nth i deferred_slots []).
-Definition CD := ECodeDeclined.
-Definition C := ECode.
-Definition R (es : option (list ev)) : ev := ERc 0 0 es.
-Definition Fd (es : option (list ev)) : ev := EField 0 0 0 es.
-Definition M (es : option (list ev)) : ev := EMethod 0 0 0 es.
+Definition Df (i : nat) : ev := EDeferred (nth i deferred_slots []) [].
+Definition CD := ECodeDeclined [].
+Definition C (ms ml : N) (frames : bool) (es : list ev) : ev := ECode [] ms ml (if frames then [[]] else []) es.
+Definition R (es : option (list ev)) : ev := ERc [] 0 0 0 es.
+Definition Fd (es : option (list ev)) : ev := EField 0 0 0 0 es.
+Definition M (es : option (list ev)) : ev := EMethod 0 0 0 0 es.
 
 (* equality of traces up to what the implementation cannot report: pool indices of member names,
-   access flags, and the bytes of bodies that the visitor receives parsed *)
+   access flags, the bytes of bodies that the visitor receives parsed, and which attribute a row
+   of a deferred table / a frame came from (only whether there are any) *)
 Fixpoint ev_eqb (a b : ev) : bool :=
   let fix l_eqb (x y : list ev) : bool :=
     match x, y with
@@ -119,12 +120,13 @@ Fixpoint ev_eqb (a b : ev) : bool :=
   match a, b with
   | EAttr n r p, EAttr n' r' p' => str_eqb n n' && Bool.eqb r r' && (if r then str_eqb p p' else true)
   | EFlags d s, EFlags d' s' => Bool.eqb d d' && Bool.eqb s s'
-  | EDeferred x, EDeferred y => str_eqb x y
-  | ECodeDeclined, ECodeDeclined => true
-  | ECode ms ml f es, ECode ms' ml' f' es' => N.eqb ms ms' && N.eqb ml ml' && Bool.eqb f f' && l_eqb es es'
-  | ERc _ _ es, ERc _ _ es' => o_eqb es es'
-  | EField _ _ _ es, EField _ _ _ es' => o_eqb es es'
-  | EMethod _ _ _ es, EMethod _ _ _ es' => o_eqb es es'
+  | EDeferred x _, EDeferred y _ => str_eqb x y
+  | ECodeDeclined _, ECodeDeclined _ => true
+  | ECode _ ms ml f es, ECode _ ms' ml' f' es' =>
+      N.eqb ms ms' && N.eqb ml ml' && Bool.eqb (match f with [] => false | _ => true end) (match f' with [] => false | _ => true end) && l_eqb es es'
+  | ERc _ _ _ _ es, ERc _ _ _ _ es' => o_eqb es es'
+  | EField _ _ _ _ es, EField _ _ _ _ es' => o_eqb es es'
+  | EMethod _ _ _ _ es, EMethod _ _ _ _ es' => o_eqb es es'
   | _, _ => false
   end.
 
@@ -148,8 +150,8 @@ Definition canon (l : list ev) : list ev := fold_right insert_ev [] l.
 
 Definition norm (e : ev) : ev :=
   match e with
-  | ERc n d (Some es) => ERc n d (Some (canon es))
-  | EField a n d (Some es) => EField a n d (Some (canon es))
+  | ERc an k n d (Some es) => ERc an k n d (Some (canon es))
+  | EField k a n d (Some es) => EField k a n d (Some (canon es))
   | e => e
   end.
 
